@@ -169,24 +169,24 @@ def _pre(U, op):
         if op.get('explicit'):
             if op['inlet'] >= len(u.ins) or op['outlet'] >= len(u.outs): return False
             i, x = u.ins[op['inlet']], u.outs[op['outlet']]
-            if is_real(i) and (i.source is not None or any(y is i for y in s.source.outs)): return False
-            if is_real(x) and (x.sink is not None or any(y is x for y in s.sink.ins)): return False
-            if is_real(i) and is_real(x) and i is x: return False
+            if (is_real(i) and i.source is not None) or any(y is i for y in s.source.outs): return False
+            if (is_real(x) and x.sink is not None) or any(y is x for y in s.sink.ins): return False
+            if i is x: return False
             return True
         if (u._N_ins == 1 and len(u.ins) < 1) or (u._N_outs == 1 and u._outs_size_is_fixed and len(u.outs) < 1): return False
         if u._outs_size_is_fixed:
             if u._N_outs != 1: return False
             x = u.outs[0]
-            if is_real(x) and (x.sink is not None or any(y is x for y in s.sink.ins)): return False
+            if (is_real(x) and x.sink is not None) or any(y is x for y in s.sink.ins): return False
             if u._ins_size_is_fixed:
                 if u._N_ins != 1: return False
                 i = u.ins[0]
-                if is_real(i) and (i.source is not None or any(y is i for y in s.source.outs)): return False
+                if (is_real(i) and i.source is not None) or any(y is i for y in s.source.outs): return False
             return True
         else:
             if u._N_ins != 1: return False
             i = u.ins[0]
-            if is_real(i) and (i.source is not None or any(y is i for y in s.source.outs)): return False
+            if (is_real(i) and i.source is not None) or any(y is i for y in s.source.outs): return False
             return True
     if o in ('take_place_of', 'replace_with'):
         a, b = U.units[op['u']], U.units[op['v']]
@@ -582,6 +582,7 @@ def run_history(case, rec):
 
 
 def replay(case, rec):
+    tmo.settings.set_thermo(['Water'], cache=True)
     if case['t'] == 'exh':
         U = fresh_universe(); rec.begin_case(case)
         run_sequence(U, [norm(o) for o in case['ops']], rec, 'exhaustive', case)
